@@ -9,6 +9,7 @@ TRUSTED = [
  'Coq 8.16.1 kernel; no native_compute', 'axioms: none',
  'theorem: on an abstract heap with an arbitrary failure oracle, a failed initialisation of any init program leaves the heap unchanged and end frees everything (Resource.v)',
  'fault enumeration on the real library (ASan build): counting allocator that fails the k-th allocation for EVERY k of each scenario (all public initialisers, coding loops, threaded coders, index decoder, file_info), then re-initialises the SAME handle without lzma_end and finally ends it: return codes, live bytes after lzma_end, unknown/double frees, result of the re-initialised run',
+ 'operations on live objects (drv_allocops.c): every k-th allocation failing inside lzma_filters_update of running single- and multi-threaded encoders (after full flush / barrier / sync flush / at the start / after an earlier update), after which encoding continues and the output must decode to the input; inside lzma_index_append/cat/dup/decode/encode with the index compared before and after; inside lzma_str_to_filters, lzma_filters_copy, lzma_str_from_filters, lzma_block_header_decode, lzma_filter_flags_decode with the caller-owned arrays compared with a sentinel',
 ]
 MEM_ERROR = 5
 
@@ -81,12 +82,49 @@ def run(ctx):
         t = o.split()
         if t[4] != '0' or t[5] != '0': viol.append(dict(why='handle reuse: %s bytes live after lzma_end, %s bad frees' % (t[4], t[5]), line=l[:3000], stderr=''))
         elif t[2] != bt[2] or t[8] != bt[8]: viol.append(dict(why='handle reuse: third run (same input as the first) gave status %s / crc %s, the clean sequence gives %s / %s' % (t[2], t[8], bt[2], bt[8]), line=l[:3000], stderr=''))
-    lines = lines + slines
+    # ---- failures inside operations on live objects: filter-chain updates of running encoders, index manipulation,
+    #      filter-chain helpers; afterwards the objects are used further (drv_allocops.c)
+    ops = compile_driver('san', 'drv_allocops.c', 'drv_allocops')
+    udata = (xzgen.gen_data(rng, 1500) * 3)[:4000] + bytes(rng.getrandbits(8) for _ in range(200))
+    obase = ['upd %d 0 %d %s' % (v, sd, udata.hex()) for v in range(5) for sd in (0, 1)]
+    obase += ['idx %d %d 0' % (op, m) for op in range(7) for m in (0, 3, 511, 512, 513, 1024, 1100)]
+    fstrs = ['6', '9e', 'lzma2:dict=1MiB', 'x86 delta:dist=4 lzma2:preset=3', 'arm64:start=4096 lzma2:lc=1,lp=2', 'delta:dist=256 riscv powerpc:start=16 lzma2:nice=273,mf=bt2', 'lzma1:pb=0']
+    obase += ['flt %d 0 %s' % (op, st) for op in range(5) for st in fstrs if not (op in (3, 4) and 'lzma1' in st)]
+    ob, of = run_lines(ops, obase, shards=4)
+    for x in of: viol.append(dict(why='operation driver crashed without any injected failure', line=(x[0] or '')[:3000], stderr=x[1][-2000:]))
+    olines, ometa = [], []
+    for l, o in zip(obase, ob):
+        if o is None: continue
+        t = o.split()
+        if not t[0].lstrip('-').isdigit(): viol.append(dict(why='operation driver: setup failed: ' + o, line=l[:3000], stderr='')); continue
+        clean_ok = (t[0] == '0' and t[2] == '1' and t[3] == '1' and t[4] == '0' and t[5] == '0') if l.startswith('upd') else (t[0] == '0' and t[2] == '1' and t[3] == '0' and t[4] == '0')
+        if not clean_ok: viol.append(dict(why='operation without injected failure did not behave: ' + o, line=l[:3000], stderr='')); continue
+        w = l.split(' ')
+        for k in range(1, int(t[1]) + 1):
+            if w[0] == 'idx': olines.append('idx %s %s %d' % (w[1], w[2], k))
+            else: olines.append(' '.join([w[0], w[1], str(k)] + w[3:]))
+            ometa.append(w[0])
+    oo, of = run_lines(ops, olines, shards=8)
+    for x in of: viol.append(dict(why='allocation failure inside an operation on a live object: crash / sanitizer report when the object is used afterwards', line=(x[0] or '')[:3000], stderr=x[1][-2500:]))
+    for kind, l, o in zip(ometa, olines, oo):
+        if o is None: continue
+        t = o.split(); why = None
+        if kind == 'upd':
+            if t[0] not in ('0', '5'): why = 'lzma_filters_update returned %s' % t[0]
+            elif t[2] != '1' or t[3] != '1': why = 'after lzma_filters_update returned %s the encoder finished with %s and its output %s' % (t[0], t[2], 'decodes to the input' if t[3] == '1' else 'does not decode to the input')
+            elif t[4] != '0' or t[5] != '0': why = '%s bytes live after lzma_end, %s bad frees' % (t[4], t[5])
+        else:
+            if t[0] not in ('0', '5'): why = 'operation returned %s' % t[0]
+            elif t[2] != '1': why = 'operation returned %s and the caller\'s objects are not what they must be afterwards' % t[0]
+            elif t[3] != '0' or t[4] != '0': why = '%s bytes live after everything was freed, %s bad frees' % (t[3], t[4])
+        stats[(kind, int(t[0]))] = stats.get((kind, int(t[0])), 0) + 1
+        if why: viol.append(dict(why='allocation failure inside an operation: ' + why, line=l[:3000], stderr=''))
+    lines = lines + slines + olines
     ctx.cov['evaluations'] = len(lines) + len(base_lines)
     ctx.cov['distinct_nontrivial'] = len(stats)
     ctx.cov['exhaustive'] = True
     ctx.cov['rule'] = 'for each scenario (stream/stream_mt/alone/lzip/auto/index/file_info decoders, easy/mt/alone/raw/stream/microlzma encoders) the clean run counts N allocations, then EVERY k in 1..N fails; afterwards the same handle is re-initialised without lzma_end, run to completion and ended; distinct = (scenario, resulting status)'
-    ctx.cov['input_distribution'] = dict(scenarios=len(scen), injected_runs=len(lines), statuses={'%d:%d' % k: v for k, v in stats.items()})
+    ctx.cov['input_distribution'] = dict(scenarios=len(scen), injected_runs=len(lines), statuses={'%s:%d' % k: v for k, v in stats.items()})
     ctx.cov['samples'] = [lines[0][:80] if lines else '', base_lines[2][:80]]
     if viol:
         v = min(viol, key=lambda x: len(x['line']))
